@@ -741,6 +741,17 @@ func RunKV(sc *KVScenario, log *EventLog, workDir string) error {
 			var wg sync.WaitGroup
 			var mu sync.Mutex
 			gets, torn, unk, gerr, serr := 0, 0, 0, 0, 0
+			conns := []driver.Conn{r.conn}
+			if op.How == "two" && r.dir != "" {
+				// a second handle on the same directory (another component of the same process)
+				opts := []fscache.Option{fscache.WithBaseDir(r.dir)}
+				if sc.Backend == "fsenc" {
+					opts = append(opts, fscache.WithEncryption(encKey))
+				}
+				if c2, err := fscache.Open("kv", opts...); err == nil {
+					conns = append(conns, c2)
+				}
+			}
 			for wi := 0; wi < op.N; wi++ {
 				wg.Add(1)
 				go func(wi int) {
@@ -751,7 +762,7 @@ func RunKV(sc *KVScenario, log *EventLog, workDir string) error {
 							return
 						default:
 						}
-						if err := r.conn.Set(key, append([]byte(nil), r.vals[(wi+j)%len(r.vals)]...)); err != nil {
+						if err := conns[wi%len(conns)].Set(key, append([]byte(nil), r.vals[(wi+j)%len(r.vals)]...)); err != nil {
 							mu.Lock()
 							serr++
 							mu.Unlock()
@@ -767,7 +778,7 @@ func RunKV(sc *KVScenario, log *EventLog, workDir string) error {
 							return
 						default:
 						}
-						b, err := r.conn.Get(key)
+						b, err := conns[len(conns)-1].Get(key)
 						mu.Lock()
 						gets++
 						if err == nil {
